@@ -1,6 +1,8 @@
 package main
 
 import (
+	"runtime/debug"
+	"runtime/pprof"
 	"crypto/sha1"
 	"encoding/json"
 	"flag"
@@ -85,6 +87,7 @@ type Evidence struct {
 }
 
 func main() {
+	debug.SetGCPercent(600)
 	if len(os.Args) < 2 {
 		fmt.Fprintln(os.Stderr, "usage: gosym check <ID> [flags] | gosym replay <file>")
 		os.Exit(2)
@@ -114,6 +117,7 @@ func cmdCheck(args []string) int {
 	solver := fs.String("solver", "z3", "z3|z3-new|cvc5")
 	maxPaths := fs.Int("max-paths", 2000000, "path cap per harness")
 	evDir := fs.String("evidence", filepath.Join(verifDir, "evidence"), "evidence directory")
+	cpuprof := fs.String("cpuprofile", "", "write cpu profile")
 	var id string
 	if len(args) > 0 && !strings.HasPrefix(args[0], "-") {
 		id = args[0]
@@ -125,6 +129,11 @@ func cmdCheck(args []string) int {
 		return 2
 	}
 	seed, _ := strconv.ParseInt(envOr("VERIF_SEED", "0"), 10, 64)
+	if *cpuprof != "" {
+		f, _ := os.Create(*cpuprof)
+		pprof.StartCPUProfile(f)
+		defer pprof.StopCPUProfile()
+	}
 	t0 := time.Now()
 	cfg := &Config{Repo: *repo, HarnessDir: *hdir, Prop: id, Tier: *tier, Seed: seed, Workers: *workers,
 		EnumCap: 64, ViolCap: 4, MaxSteps: 5000000, MaxPaths: *maxPaths, SampleCap: 48, Solver: *solver, Only: *only, Verbose: *verbose}
@@ -150,7 +159,24 @@ func cmdCheck(args []string) int {
 		fmt.Println("ENGINE-ERROR stub validation:", stubErr)
 		return 3
 	}
+	if os.Getenv("GOSYM_QSTAT") != "" {
+		qstat = map[string]int{}
+	}
 	rr := Explore(ld, cfg)
+	if qstat != nil {
+		type kv struct {
+			k string
+			v int
+		}
+		var kvs []kv
+		for k, v := range qstat {
+			kvs = append(kvs, kv{k, v})
+		}
+		sort.Slice(kvs, func(i, j int) bool { return kvs[i].v > kvs[j].v })
+		for i := 0; i < len(kvs) && i < 25; i++ {
+			fmt.Printf("QSTAT %7d %s\n", kvs[i].v, kvs[i].k)
+		}
+	}
 	engineProblem := false
 	for _, e := range rr.EngineErrs {
 		fmt.Println("ENGINE-ERROR", e)
